@@ -160,6 +160,20 @@ CHECKS = {
   "contract-based deductive verification: call-site obligations over the symbolic defer stack (deferIndex), closure facts (isClosure/capturedInt), ghost process counters and received-channel history, loop invariants over the environment list; z3/cvc5"),
 }
 
+# Additions made after the blind seeding round (appended to the claim texts above).
+EXTRA = {
+ "C01": " cmdExec returns normally only if the outcome of the child matches the polarity: a failed start of a background command or a failed foreground run reaches the caller unless negated, and a negated foreground exec must have failed.",
+ "C04": " RunT's per-script closure is handed to t.Run under the very name that was checked for distinctness; cmdExec's start/run errors reach the caller (not swallowed); the wait-for-one-background-command path (waitBackgroundOne) is covered by a BOUNDED stand-in only (pointers into slice elements are outside the modelled subset).",
+ "C05": " copyFile returns nil only when the output file exists under its name.",
+ "C11": " copyFile returns nil only when the output file exists; put itself never removes or truncates a file.",
+ "C12": " put itself never removes or truncates a file; copyFile never reopens for writing an existing output whose size and hash already match, passes O_TRUNC only when the existing file is longer than the new content, and truncates only to zero.",
+ "C13": " GetBytes reads the data file only after its mtime was refreshed (younger than one hour before the call, when no file operation fails), like GetFile.",
+ "C14": " What txtar-c hands to NeedsQuote is the file's bytes as read, changed at most by one added final newline.",
+ "C15": " cmd/txtar-x's main extracts the freshly parsed archive with txtar.Write into the directory given by -C and ends with exit status 1 exactly when Write failed; cmd/txtar-c's main walks from the cleaned directory argument, so entry names are relative to it.",
+ "C18": " scanFiles (the caller that feeds files to ReadImports) is in this check's set: it reads imports without syntax-error reporting and only from the opened file.",
+ "C19": " scanFiles evaluates ShouldBuild on exactly the bytes it read and with the caller's tag map (unless the files were named explicitly).",
+}
+
 NOT_YET = "not yet brought under contract in this round of work (see DESIGN.md section 8 build order); no check is registered, so nothing is claimed"
 NA = {
  "C17": "not applicable to contract-based deductive verification: the statement is about wall-clock instants, OS signal delivery and a goroutine racing cmd.Wait through select/timers; no pre/postcondition over one call can mention these (DESIGN.md section 6)",
@@ -180,7 +194,7 @@ def main():
                 "evidence_file": f"/verif/evidence/{pid}.json",
                 "replay_cmd_template": "cat {path}",
                 "engine": "govc",
-                "level_claimed": {"category": "proof", "text": text, "design_ref": sec},
+                "level_claimed": {"category": "proof", "text": text + EXTRA.get(pid, ""), "design_ref": sec},
                 "level_note": note,
                 "technique": tech,
             })
